@@ -78,6 +78,10 @@ class Ctx:
 
     def fresh(self, base):
         base = re.sub(r'[^A-Za-z0-9_]', '_', base)
+        if base in ('end', 'at', 'in', 'let', 'match', 'with', 'fun', 'if', 'then', 'else', 'return', 'as', 'fix', 'for', 'forall', 'exists', 'Type', 'Prop', 'Set', 'using', 'where', 'mod'):
+            base = base + '_v'
+        if base.startswith('_'):
+            base = 'x' + base
         k = self.counter.get(base, 0)
         self.counter[base] = k + 1
         return base if k == 0 else f'{base}_{k}'
@@ -96,6 +100,8 @@ class Tr:
     def expr(self, n, env):
         k = n['kind']
         inner = [c for c in (n.get('inner') or []) if isinstance(c, dict)]
+        if k == 'ExprWithCleanups' and len(inner) == 1:
+            return self.expr(inner[0], env)
         if k in ('ParenExpr', 'ConstantExpr', 'ExprWithCleanups', 'MaterializeTemporaryExpr', 'CXXBindTemporaryExpr', 'CXXFunctionalCastExpr') and len(inner) == 1 and k != 'CXXFunctionalCastExpr':
             return self.expr(inner[0], env)
         if k == 'SubstNonTypeTemplateParmExpr':
@@ -124,6 +130,10 @@ class Tr:
                 if name in env:
                     return (env[name], int_type(qtype(n)) or int_type(ref.get('type', {}).get('qualType', '')))
                 # static constexpr member / namespace constant
+                if name in self.c.unit.get('symbolic_constants', []):
+                    if name not in self.c.params:
+                        self.c.params.append(name)
+                    return ('P_' + name, int_type(qtype(n)))
                 cn = self.c.unit.get('constants', {})
                 if name in cn:
                     if name not in self.c.consts:
@@ -214,8 +224,12 @@ class Tr:
             me = inner[0]
             mname = me.get('name')
             obj = [c for c in (me.get('inner') or [])][0]
-            if mname == 'load':
+            if mname == 'load' or (mname or '').startswith('operator ') and mname not in ('operator=', 'operator()'):
+                # atomic load or implicit conversion of std::atomic<T> to T
                 return self.read_lvalue(obj, env)
+            if mname == 'get' and self.strip(obj)['kind'] in ('CXXMemberCallExpr', 'ArraySubscriptExpr', 'MemberExpr', 'MaterializeTemporaryExpr', 'CXXBindTemporaryExpr'):
+                # marked_ptr::get() of a loaded cell: the cell's content (marks are not modelled here)
+                return self.expr(self.strip(obj), env)
             if mname in self.known_member_calls():
                 args = [self.expr(a, env) for a in inner[1:] if a['kind'] != 'CXXDefaultArgExpr']
                 return (f'({self.known[mname]} ' + ' '.join(a for a, _ in args) + ')', int_type(qtype(n)))
@@ -375,6 +389,13 @@ class Tr:
                 me = m['inner'][0]
                 if me.get('name') == 'store':
                     tgt = me['inner'][0]
+            elif k == 'CallExpr':
+                fn_ = None
+                for mm, _ in walk(m['inner'][0]):
+                    if mm.get('kind') == 'DeclRefExpr':
+                        fn_ = mm['referencedDecl'].get('name')
+                if fn_ in self.c.unit.get('effect_calls', {}) and '$mem' not in local and '$mem' not in out:
+                    out.append('$mem')
             if tgt is not None:
                 t = self.strip(tgt)
                 key = None
@@ -432,6 +453,8 @@ class Tr:
             return self.stmts(inner, env, lambda e: cont({kk: vv for kk, vv in e.items() if kk in outer_keys}))
         if kind == 'NullStmt':
             return cont(env)
+        if kind == 'ExprWithCleanups' and len(inner) == 1:
+            return self.stmts([inner[0]] + rest, env, k)
         if kind == 'DeclStmt':
             txt = ''
             e2 = dict(env)
@@ -489,6 +512,26 @@ class Tr:
             f = 'wadd' if n['opcode'] == '++' else 'wsub'
             txt, e2 = self.assign(lv, f'({f} {tcur[0]} {cur} 1)', env)
             return txt + cont(e2)
+        if kind == 'CallExpr':
+            callee = inner[0]
+            fname = None
+            for m, _ in walk(callee):
+                if m.get('kind') == 'DeclRefExpr':
+                    fname = m['referencedDecl'].get('name')
+            eff = self.c.unit.get('effect_calls', {})
+            if fname in eff:
+                # the call consumes one memory cell: count it (cell value += 1)
+                cellnode = None
+                for m, _ in walk(n):
+                    if m.get('kind') == 'ArraySubscriptExpr':
+                        cellnode = m; break
+                if cellnode is None:
+                    raise Untranslatable(f'{self.c.fname}: effect call {fname} without a cell argument')
+                lv = self.lvalue(cellnode, env)
+                cur, _ = self.read_lvalue(cellnode, env)
+                txt, e2 = self.assign(lv, f'(wadd 64 {cur} 1)', env)
+                return txt + cont(e2)
+            raise Untranslatable(f'{self.c.fname}: call statement {fname}')
         if kind == 'CXXMemberCallExpr':
             me = inner[0]
             if me.get('name') == 'store':
@@ -672,9 +715,12 @@ def translate_function(ast, unit, fname, known, call_map, out):
     for g in gparams:
         sig += f' ({g} : N)'
     for l in ctx.loops:
-        # loops need the symbolic parameters too
+        # loops need the symbolic parameters too (signature and recursive call)
         lp = ''.join(f' (P_{p} : N)' for p in ctx.params)
-        l = l.replace('(fuel : nat)', lp.strip() + ' (fuel : nat)' if lp else '(fuel : nat)', 1) if lp else l
+        if lp:
+            lname_ = re.match(r'Fixpoint (\S+)', l).group(1)
+            l = l.replace('(fuel : nat)', lp.strip() + ' (fuel : nat)', 1)
+            l = l.replace(f'{lname_} fuel_ ', f'{lname_} ' + ' '.join('P_' + p for p in ctx.params) + ' fuel_ ')
         out.append(l)
     text = f'Definition {gname}{sig} :=\n{term}.'
     if ctx.params:
@@ -695,7 +741,7 @@ def translate_constant(ast, unit, cname, known, call_map, out):
             kinds = [p.get('kind') for p in path]
             if 'ClassTemplateDecl' in kinds and 'ClassTemplateSpecializationDecl' not in kinds:
                 continue
-            cls = unit.get('class')
+            cls = unit.get('const_class', unit.get('class'))
             if cls and not any(p.get('name') == cls for p in path):
                 continue
             init = [c for c in n.get('inner') or [] if isinstance(c, dict)]
